@@ -18,7 +18,7 @@ import (
 
 func init() {
 	Register(&Scenario{Prop: "C09", Name: "multi-db-isolation", Run: scenC09, SoftParks: true, Weight: 1,
-		Rule: "instance P with 2-4 databases (types and write lists mixed) on its default shared event bus, peer Q (and sometimes R) opening a random subset; one database is kept idle after setup; 4-14 (thorough 4-36) writes on the other databases from any peer holding them, replication under faults, Load(-1) on a non-idle database; oracles: every payload published on a database topic or a direct channel names one database and carries only heads of that database's log; the idle database's log, replication status and cached head keys never change and no store event carries its address; every EventWrite/EventReplicated carries only entries of its own database; non-trivial = >=2 active databases on P, >=1 replication into P and >=1 write on P while the idle database was watched"})
+		Rule: "instance P with 2-4 databases (types and write lists mixed) on its default shared event bus, peer Q (and sometimes R) opening a random subset; one database is kept idle after setup; 4-14 (thorough 4-36) writes on the other databases from any peer holding them, replication under faults, Load(-1) on a non-idle database; oracles: every payload published on a database topic or a direct channel names one database and carries only heads of that database's log; the idle database's log, replication status and cached head keys never change and no store event carries its address; every EventWrite/EventReplicated carries only entries of its own database; after a final reconnect of all peers every holder of a database has every acknowledged write of that database; non-trivial = >=2 active databases on P, >=1 replication into P and >=1 write on P while the idle database was watched"})
 }
 
 type c09db struct {
@@ -207,6 +207,7 @@ func scenC09(k *K) {
 	wseq := 0
 	writesOnP, replIntoP := 0, 0
 	active := map[string]bool{}
+	acked := map[string][]string{}
 	for i := 0; i < nops; i++ {
 		db := dbs[k.C.Intn(ndb)]
 		if db.idle {
@@ -240,10 +241,42 @@ func scenC09(k *K) {
 			if pi == 0 {
 				writesOnP++
 			}
+			if o, ok := op.Val.(operation.Operation); ok && o != nil {
+				acked[db.addr] = append(acked[db.addr], o.GetEntry().GetHash().String())
+			}
 		}
 		k.Steps(k.C.Intn(8))
 	}
 	k.Settle(90*time.Second, 3000, nil)
+	// each database, taken alone, still gets everywhere: once writes have stopped and all
+	// peers are reconnected, every holder of a database has every acknowledged write of it,
+	// whatever the other databases of the same instances went through meanwhile
+	k.W.FailWant = map[string]int{}
+	k.ReconnectAll(np, 180*time.Second, 6000, func() bool {
+		for _, db := range dbs {
+			for _, st := range db.stores {
+				if st != nil && !ReplicatorIdle(st) {
+					return false
+				}
+			}
+		}
+		return true
+	})
+	for _, db := range dbs {
+		for pi := 0; pi < np; pi++ {
+			st := db.stores[pi]
+			if st == nil {
+				continue
+			}
+			have := LogHashSet(st)
+			for _, h := range acked[db.addr] {
+				if !have[h] {
+					rs, _ := ReplStats(st)
+					k.Failf("C09/db-starved", "after writes stopped and all peers were reconnected, peer %d still lacks an acknowledged entry of database %s (%d of %d held; replicator %+v) while it holds %d other database(s)", pi, short(db.addr), len(have), len(acked[db.addr]), rs, len(dbs)-1)
+				}
+			}
+		}
+	}
 	for _, db := range dbs {
 		if st := db.stores[0]; st != nil && !db.idle {
 			for _, e := range LogValues(st) {
